@@ -27,6 +27,7 @@ type Features struct {
 	WSText     bool // text nodes rich in whitespace (for trim laws)
 	Model      bool // only constructs whose result the reference model defines
 	NoVarReuse bool // assigned/captured names are never read by generated expressions
+	NestedArgs bool // filter arguments may themselves be filtered expressions in parentheses
 }
 
 // StdEnv is a binding environment covering every kind; values vary with r.
@@ -99,8 +100,8 @@ func (g *G) trims(n int) []Trim {
 	return t
 }
 
-var textPieces = []string{"a", "b ", " c", "x\n", "\ny", "-", "<p>", ", ", "word ", "1", "", "é", "  ", "\n", "\t"}
-var wsPieces = []string{" ", "\n", "\t", "  \n  ", "a", "b", " x ", "\r\n", "", "y\n", "\n z", "-"}
+var textPieces = []string{"a", "b ", " c", "x\n", "\ny", "-", "<p>", ", ", "word ", "1", "", "é", "  ", "\n", "\t", "voilà", "Р", "ах"}
+var wsPieces = []string{" ", "\n", "\t", "  \n  ", "a", "b", " x ", "\r\n", "", "y\n", "\n z", "-", "voilà", "à ", " Р", "х", "\u00a0", "déjà\n"}
 
 func (g *G) text() Text {
 	ps := textPieces
@@ -218,6 +219,12 @@ var extraFilters = []struct {
 }
 
 func (g *G) strArg() Expr {
+	if g.F.NestedArgs && g.R.P(1, 5) {
+		if g.R.Bool() {
+			return Filt{X: Lit{Str([]string{"in", "N", ""}[g.R.Intn(3)])}, Name: "upcase"}
+		}
+		return Filt{X: Lit{Str([]string{"in", "N", ""}[g.R.Intn(3)])}, Name: []string{"append", "prepend"}[g.R.Intn(2)], Args: []Expr{Lit{Str("q")}}}
+	}
 	if g.R.P(1, 3) {
 		return Var{pick(g.R, g.varsOfKind(KStr))}
 	}
@@ -225,6 +232,10 @@ func (g *G) strArg() Expr {
 }
 
 func (g *G) numArg() Expr {
+	if g.F.NestedArgs && g.R.P(1, 5) {
+		// a filtered expression as argument: (x | plus: 1)
+		return Filt{X: Lit{Int(int64(g.R.Range(0, 6)))}, Name: []string{"plus", "minus", "times"}[g.R.Intn(3)], Args: []Expr{Lit{Int(int64(g.R.Range(1, 3)))}}}
+	}
 	if g.R.P(1, 3) {
 		return Var{pick(g.R, g.varsOfKind(KInt))}
 	}
